@@ -533,10 +533,90 @@ static void deep_chain_episode(void)
 	op_free(1, false);
 	op_reset();
 }
+/* a node with two children of different prefix lengths (and grandchildren below both) is removed, then its children one
+ * by one: the pull-up in trie_remove must promote the shorter child, or a record ends up below a longer prefix.  After
+ * every step every record of the pool is asked for exactly. */
+static void fork_episode(void)
+{
+	int fam = vh_chance(50) ? 6 : 4;
+	unsigned int maxb = fam == 4 ? 32 : 128;
+	unsigned int k = 1 + vh_rn(maxb - 14);
+	struct lrtr_ip_addr base;
+	int order[8];
+
+	rand_addr(&base, fam);
+	mask_addr(&base, k);
+	asn_pool[0] = 0;
+	asn_pool[1] = 1;
+	asn_pool[2] = 65000;
+	for (int i = 3; i < 8; i++)
+		asn_pool[i] = vh_r32();
+	npool = 0;
+	for (int i = 0; i < 6; i++) {
+		struct pfx_record *r = &pool[npool++];
+		/* 0: parent of the fork, 1: the fork X, 2 / 3: left / right child, 4 / 5: one grandchild below each */
+		unsigned int la = k + 1 + vh_rn(5), lb = k + 1 + vh_rn(5);
+
+		memset(r, 0, sizeof(*r));
+		r->prefix = base;
+		r->min_len = k;
+		if (i == 0) {
+			r->min_len = k - 1;
+			mask_addr(&r->prefix, k - 1);
+		} else if (i == 2) {
+			r->min_len = la;
+		} else if (i == 3) {
+			flip_bit(&r->prefix, k);
+			r->min_len = lb;
+		} else if (i >= 4) {
+			*r = pool[i - 2];
+			flip_bit(&r->prefix, r->min_len);
+			r->min_len += 1 + vh_rn(4);
+		}
+		r->max_len = vh_chance(50) ? r->min_len : r->min_len + vh_rn(maxb - r->min_len + 1);
+		r->asn = asn_pool[1 + vh_rn(7)];
+		r->socket = &socks[vh_rn(3)];
+	}
+	op_init(1, true);
+	for (int i = 0; i < npool; i++)
+		order[i] = i;
+	for (int i = npool - 1; i > 0; i--) {
+		int j = vh_rn(i + 1), t = order[i];
+
+		order[i] = order[j];
+		order[j] = t;
+	}
+	for (int i = 0; i < npool; i++)
+		op_add(1, &pool[order[i]]);
+	pool_sweep(1);
+	op_rm(1, &pool[1]);
+	pool_sweep(1);
+	int first = vh_chance(50) ? 2 : 3;
+
+	op_rm(1, &pool[first]);
+	pool_sweep(1);
+	op_add(1, &pool[1]);
+	op_add(1, &pool[first]);
+	pool_sweep(1);
+	op_rm(1, &pool[1]);
+	op_rm(1, &pool[5 - first]);
+	pool_sweep(1);
+	op_rm(1, &pool[0]);
+	op_rm(1, &pool[first]);
+	pool_sweep(1);
+	rand_query(1, 10);
+	op_enum(1);
+	op_free(1, false);
+	op_reset();
+}
 static void episode(int nops, int maxpool)
 {
 	if (maxpool > 24 && vh_chance(50)) {
 		deep_chain_episode();
+		return;
+	}
+	if (vh_chance(25)) {
+		fork_episode();
 		return;
 	}
 	gen_pool(maxpool);
